@@ -23,7 +23,11 @@ Inductive kstep :=
 | KBurst (f : family) (ms : list (nat * bool * emsg))                    (* long-lived commands started simultaneously: id, ready, message *)
 | KPlant (id : nat)                                                      (* an empty lock file, as left by a process of an older version killed between creating it and writing its pid *)
 | KStall (id : nat)                                                      (* the harness puts a request in flight on the serving webui id and keeps it there *)
-| KAsk (id : nat) (f : family) (h : how) (still : bool) (x : exitc).     (* SIGINT / SIGTERM to a webui with a request in flight; still: it lives on, shutting down, until the request ends (then KEnd) *)
+| KAsk (id : nat) (f : family) (h : how) (still : bool) (x : exitc)      (* SIGINT / SIGTERM to a webui with a request in flight; still: it lives on, shutting down, until the request ends (then KEnd) *)
+| KStop (id : nat)                                                       (* the live holder id is suspended (SIGSTOP or SIGTSTP = ctrl-z; seen in state T): alive, cache open, goes on when continued *)
+| KCont (id : nat)                                                       (* SIGCONT: it runs again *)
+| KDie (id : nat)                                                        (* the live holder id is SIGKILLed and its parent (the harness) does NOT collect it: a zombie (state Z) — dead, holds nothing, still answers kill(pid, 0) *)
+| KReap (id : nat).                                                      (* the parent collects the zombie id: now it is gone *)
 
 (* after the step: the lock file, the live ready long-lived processes, the owners of the temporary files lock.<pid>
    in .git/git-bug, and whether anything else below .git differs from what it was when the step began (looked at
@@ -157,6 +161,11 @@ Definition succ (k : kstep) (s : st) : list st :=
       then if still then match h with HInt | HTerm => [ask WaitThenClose s id] | _ => [] end
            else if exitc_eqb (end_exit f h) x then [finish WaitThenClose s id] else []
       else []
+  (* liveness is kill(pid, 0): the protocol does not see who is stopped (Lock.open_x_kill0), so the state stays as it is;
+     an unreaped process has left the holders and is not among the dead, so its lock refuses (Lock.zombie_blocks_refuted) *)
+  | KStop id | KCont id => if mem id (holders s) then [s] else []
+  | KDie id => if mem id (holders s) then [zombify s id] else []
+  | KReap id => if mem id (dead s) then [] else [reap s id]
   end.
 
 (* index of the first step after which no model state is consistent with the observations *)
@@ -186,13 +195,21 @@ Definition opened (m : emsg) : bool := match m with MLocked _ | MCorrupt => fals
 Definition unchanged (T : list nat) (o : sobs) : bool := set_eqb (so_tmps o) T && negb (so_changed o).
 Definition refused_clean (T : list nat) (o : sobs) (h : nat) (x : exitc) (m : emsg) : bool := refused_by h x m && unchanged T o.
 
-Definition step_ok (H : list nat) (L : lk) (T : list nat) (o : sobs) : bool :=
+(* Z: processes that have exited and that the harness, their parent, has deliberately not collected yet (zombies). A
+   zombie is dead — it is not in H — but the code's liveness test, kill(pid, 0), still answers for it. The property
+   says that the lock a dead holder left behind does not block; the documented assumption is that a dead process is
+   reaped. So with the lock naming a zombie nothing is demanded beyond what holds either way: the open succeeds, or it
+   is refused naming the zombie and changes nothing. Once the zombie is reaped (KReap) its lock is plainly stale. *)
+Definition zrefused (Z : list nat) (L : lk) (T : list nat) (o : sobs) (x : exitc) (m : emsg) : bool :=
+  match L with LkPid z => mem z Z && refused_clean T o z x m && lk_eqb (so_lock o) L | _ => false end.
+
+Definition step_ok (H : list nat) (L : lk) (T Z : list nat) (o : sobs) : bool :=
   let la := so_lock o in let al := so_alive o in
   (* mutual exclusion *)
   Nat.leb (length al) 1 &&
   match H with
   | [h] =>
-      (* one live holder *)
+      (* one live holder — running or stopped, it makes no difference: it has the cache open *)
       match so_step o with
       | KEnd id _ hw _ =>
           if Nat.eqb id h
@@ -203,6 +220,7 @@ Definition step_ok (H : list nat) (L : lk) (T : list nat) (o : sobs) : bool :=
           then if still then mem h al && lk_eqb la (LkPid h)                (* alive, serving: its lock stays *)
                else negb (mem id al) && negb (lk_eqb la (LkPid id))         (* it ended at once: as above *)
           else false
+      | KDie id => Nat.eqb id h && negb (mem id al)                         (* killed: no longer alive; its lock may stay *)
       | k =>
           (* anybody else: the holder keeps running, its lock stays (nothing changes, the lock of a live process is never removed) *)
           mem h al && lk_eqb la (LkPid h) &&
@@ -214,39 +232,62 @@ Definition step_ok (H : list nat) (L : lk) (T : list nat) (o : sobs) : bool :=
           | KKillAt _ _ _ x m => match x with XSig => true | _ => refused_clean T o h x m end
           | KBurst _ os => forallb (fun r => let '(_, rdy, m) := r in negb rdy && emsg_eqb m (MLocked h)) os && unchanged T o
           | KPlant _ => false
-          | KStall id => Nat.eqb id h
-          | KEnd _ _ _ _ | KAsk _ _ _ _ _ => true
+          | KStall id | KStop id | KCont id => Nat.eqb id h                 (* stopped, continued: alive all along, lock untouched *)
+          | KReap _ => true
+          | KEnd _ _ _ _ | KAsk _ _ _ _ _ | KDie _ => true
           end
       end
   | [] =>
       (* nobody holds: closed cleanly, or the last holder died leaving its lock behind *)
       match so_step o with
       | KCmd id _ EarlyErr _ _ => lk_eqb la L
-      | KCmd id _ _ x m => opened m && negb (lk_eqb la (LkPid id))             (* the open succeeds; the command releases on success and on failure *)
-      | KHold id _ rdy _ _ => rdy && lk_eqb la (LkPid id) && mem id al        (* the open succeeds *)
+      | KCmd id _ _ x m => zrefused Z L T o x m ||
+                           opened m && negb (lk_eqb la (LkPid id))             (* the open succeeds; the command releases on success and on failure *)
+      | KHold id _ rdy x m => negb rdy && zrefused Z L T o x m ||
+                              rdy && lk_eqb la (LkPid id) && mem id al        (* the open succeeds *)
       | KEnd _ _ _ _ => false
-      | KKillAt id _ pa x m => match x with XSig => true | _ => match pa with EarlyErr => true | _ => opened m && negb (lk_eqb la (LkPid id)) end end
-      | KBurst _ os => existsb (fun r => snd (fst r)) os &&                   (* somebody gets it *)
+      | KKillAt id _ pa x m => match x with XSig => true | _ => match pa with EarlyErr => true | _ =>
+                                 zrefused Z L T o x m || opened m && negb (lk_eqb la (LkPid id)) end end
+      | KBurst _ os => match L with
+                       | LkPid z => mem z Z && lk_eqb la L && unchanged T o &&
+                                    forallb (fun r => let '(_, rdy, m) := r in negb rdy && emsg_eqb m (MLocked z)) os
+                       | _ => false end ||
+                       existsb (fun r => snd (fst r)) os &&                   (* somebody gets it *)
                        Nat.leb (length (filter (fun r => snd (fst r) || hung (snd r)) os)) 1   (* and nobody else passes the lock *)
       | KPlant _ => true
-      | KStall _ | KAsk _ _ _ _ _ => false
+      | KReap _ => lk_eqb la L
+      | KStall _ | KAsk _ _ _ _ _ | KStop _ | KCont _ | KDie _ => false
       end
   | _ => true   (* already reported at the step that produced two holders *)
   end.
 
-Fixpoint scan (H : list nat) (L : lk) (T : list nat) (steps : list sobs) : bool :=
+Definition zupd (Z : list nat) (k : kstep) : list nat :=
+  match k with KDie id => id :: Z | KReap id => rm id Z | _ => Z end.
+Fixpoint scan (H : list nat) (L : lk) (T Z : list nat) (steps : list sobs) : bool :=
   match steps with
   | [] => true
-  | o :: t => step_ok H L T o && scan (so_alive o) (so_lock o) (so_tmps o) t
+  | o :: t => step_ok H L T Z o && scan (so_alive o) (so_lock o) (so_tmps o) (zupd Z (so_step o)) t
   end.
-Definition C19_ok (c : case) : bool := scan [] LkNone [] (l_steps c).
+Definition C19_ok (c : case) : bool := scan [] LkNone [] [] (l_steps c).
 Definition failing (cs : list case) : list nat := index_filter C19_ok 0 cs.
 
 (* --replay: first diverging step (model vs processes) and the first step at which the property is false *)
-Fixpoint first_bad (H : list nat) (L : lk) (T : list nat) (steps : list sobs) (i : nat) : option nat :=
+Fixpoint first_bad (H : list nat) (L : lk) (T Z : list nat) (steps : list sobs) (i : nat) : option nat :=
   match steps with
   | [] => None
-  | o :: t => if step_ok H L T o then first_bad (so_alive o) (so_lock o) (so_tmps o) t (S i) else Some i
+  | o :: t => if step_ok H L T Z o then first_bad (so_alive o) (so_lock o) (so_tmps o) (zupd Z (so_step o)) t (S i) else Some i
+  end.
+Definition first_bad0 (c : case) := first_bad [] LkNone [] [] (l_steps c) 0.
+(* who is stopped / unreaped after the first i steps *)
+Fixpoint stopped_after (P : list nat) (steps : list sobs) (i : nat) : list nat :=
+  match i, steps with
+  | 0, _ | _, [] => P
+  | S i, o :: t => stopped_after (match so_step o with KStop id => id :: P | KCont id | KDie id | KEnd id _ _ _ => rm id P | _ => P end) t i
+  end.
+Fixpoint zombies_after (Z : list nat) (steps : list sobs) (i : nat) : list nat :=
+  match i, steps with
+  | 0, _ | _, [] => Z
+  | S i, o :: t => zombies_after (zupd Z (so_step o)) t i
   end.
 (* the process(es) a step starts *)
 Definition actors (k : kstep) : list nat :=
@@ -258,11 +299,17 @@ Definition actors (k : kstep) : list nat :=
 Definition owner (c : case) (id : nat) : nat := if mem id (l_others c) then 1 else 0.
 (* at the first step where the property is false: (step, live holders before it, does an opener belong to another user than a holder) *)
 Definition cross_at (c : case) : option (nat * list nat * bool) :=
-  match first_bad [] LkNone [] (l_steps c) 0 with
+  match first_bad0 c with
   | None => None
   | Some i =>
       let H := match i with 0 => [] | S j => so_alive (nth j (l_steps c) (mkso (KPlant 0) LkNone [] [] false)) end in
       let A := actors (so_step (nth i (l_steps c) (mkso (KPlant 0) LkNone [] [] false))) in
       Some (i, H, existsb (fun a => existsb (fun h => negb (Nat.eqb (owner c a) (owner c h))) H) A)
   end.
-Definition explain (c : case) := (divergence c, first_bad [] LkNone [] (l_steps c) 0, cross_at c).
+(* at the first step where the property is false: which of the live holders before it were stopped, who was a zombie *)
+Definition susp_at (c : case) : option (list nat * list nat) :=
+  match first_bad0 c with
+  | None => None
+  | Some i => Some (stopped_after [] (l_steps c) i, zombies_after [] (l_steps c) i)
+  end.
+Definition explain (c : case) := (divergence c, first_bad0 c, cross_at c, susp_at c).
